@@ -446,6 +446,7 @@ func c03Core(c *Ctx) bool {
 				// the region entered only when the test (a conjunction containing the call) holds
 				region := b.Succs[0]
 				moved := false
+				movedKind := ""
 				var at token.Pos
 				for _, rb := range hf.Blocks {
 					if rb != region && !region.Dominates(rb) {
@@ -459,13 +460,33 @@ func c03Core(c *Ctx) bool {
 						if _, fresh := mi.X.(*ssa.Alloc); fresh {
 							continue
 						}
-						if derivesFrom(mi.X, func(v ssa.Value) bool { _, ok := v.(*ssa.TypeAssert); return ok }) {
+						if derivesFrom(mi.X, func(v ssa.Value) bool {
+							ta, ok := v.(*ssa.TypeAssert)
+							if ok {
+								// the kind of statement that is moved names the finding: hoisting another kind is another defect
+								t := ta.AssertedType
+								if pt, isP := t.(*types.Pointer); isP {
+									t = pt.Elem()
+								}
+								if n := namedOf(t); n != nil && !strings.Contains(movedKind, n.Obj().Name()) {
+									if movedKind != "" {
+										movedKind += "+"
+									}
+									movedKind += n.Obj().Name()
+								}
+							}
+							return false
+						}); movedKind != "" {
 							moved, at = true, inv.Pos()
 						}
 					}
 				}
 				if len(region.Preds) == 1 {
-					c.ob("C03-R3", compilerPkg+".Optimizer.OptimizeStatements#licm-hoists-computation-not-declaration", at, !moved, "loop-invariant code motion moves the program's own `$ t = e` out of the loop body: the declaration changes scope (a `t` of the enclosing scope makes the optimised program fail to compile with 'cannot redeclare', a `t` further out is shadowed for the code after the loop) and is executed even when the loop runs zero times")
+					suffix := ""
+					if movedKind != "" {
+						suffix = ":" + movedKind
+					}
+					c.ob("C03-R3", compilerPkg+".Optimizer.OptimizeStatements#licm-hoists-computation-not-declaration"+suffix, at, !moved, "loop-invariant code motion moves the program's own `$ t = e` out of the loop body: the declaration changes scope (a `t` of the enclosing scope makes the optimised program fail to compile with 'cannot redeclare', a `t` further out is shadowed for the code after the loop) and is executed even when the loop runs zero times")
 				}
 			}
 		}
